@@ -1183,13 +1183,18 @@ func checkExecuteFromSlave(reqCtx *util.RequestContext, c *SessionExecutor, sql 
 	return c.GetNamespace().IsRWSplit(c.user)
 }
 
-// 如果是只读用户, 且SQL是INSERT, UPDATE, DELETE, 则拒绝执行, 返回true
+// 如果是只读用户, 且SQL是INSERT, REPLACE, UPDATE, DELETE, DDL, LOAD DATA, 则拒绝执行, 返回true
 func isSQLNotAllowedByUser(c *SessionExecutor, stmtType int) bool {
 	if c.GetNamespace().IsAllowWrite(c.user) {
 		return false
 	}
 
-	return stmtType == parser.StmtDelete || stmtType == parser.StmtInsert || stmtType == parser.StmtUpdate
+	switch stmtType {
+	case parser.StmtDelete, parser.StmtInsert, parser.StmtUpdate, parser.StmtReplace,
+		parser.StmtDDL, parser.StmtLoad:
+		return true
+	}
+	return false
 }
 
 // 旧版本，这边有个版本对比的函数性能比较差，qps 大时损耗比较严重遂去掉，Contains 比 HasSuffix 性能差，去掉
